@@ -32,6 +32,7 @@ type SpecEnv struct {
 	inOld   bool
 	depth   int
 	payload map[string]types.Type
+	quantBound map[string]bool
 }
 
 var untypedInt = types.Typ[types.UntypedInt]
@@ -186,6 +187,20 @@ func (ev *SpecEnv) objValue(o types.Object) (TV, bool) {
 
 func (ev *SpecEnv) ident(name string) TV {
 	x := ev.x
+	if ev.loop != nil && ev.fr != nil {
+		// loop-carried locals shadow parameters of the same name (as in the source)
+		for _, in := range ev.loop.header.Instrs {
+			phi, ok := in.(*ssa.Phi)
+			if !ok {
+				break
+			}
+			if phi.Comment == name {
+				if _, bound := ev.quantBound[name]; !bound {
+					return TV{ev.phis[phi], phi.Type()}
+				}
+			}
+		}
+	}
 	if tv, ok := ev.vars[name]; ok {
 		return tv
 	}
@@ -341,6 +356,10 @@ func (ev *SpecEnv) eval(e SExpr) TV {
 			if old, ok := ev.vars[v.Name]; ok {
 				save[v.Name] = old
 			}
+			if ev.quantBound == nil {
+				ev.quantBound = map[string]bool{}
+			}
+			ev.quantBound[v.Name] = true
 			ev.vars[v.Name] = TV{bv, t}
 			vars = append(vars, bv)
 			if b := basicOf(t); b != nil && b.Info()&types.IsInteger != 0 && !x.bv && b.Kind() != types.Int {
@@ -350,6 +369,7 @@ func (ev *SpecEnv) eval(e SExpr) TV {
 		}
 		body := ev.evalBool(n.Body)
 		for _, v := range n.Vars {
+			delete(ev.quantBound, v.Name)
 			if old, ok := save[v.Name]; ok {
 				ev.vars[v.Name] = old
 			} else {
